@@ -585,7 +585,13 @@ func (s *rwHist) monAfter(before rwSnap, class string) rwSnap {
 
 func (s *rwHist) emit(kind string, err error, panicked bool) string {
 	res := rwClassify(kind, err, panicked)
-	s.out.Impl("r %s", res)
+	// only success / failure is compared with the model; the kind of error (derived from the wording of the Go error)
+	// goes into the statistics
+	if res == "ok" {
+		s.out.Impl("r ok")
+	} else {
+		s.out.Impl("r err")
+	}
 	s.out.Count("op." + kind + "." + strings.Fields(res + " ")[0])
 	if res != "ok" {
 		s.out.Count("err." + kind + "." + strings.TrimPrefix(res, "err "))
@@ -754,7 +760,7 @@ func (s *rwHist) opCreateCampaign(m rwCreate) {
 	})
 	res := ""
 	if err != nil && strings.HasPrefix(err.Error(), "basic: ") {
-		s.out.Impl("r err basic")
+		s.out.Impl("r err")
 		s.out.Count("op.CC.err")
 		s.out.Count("err.CC.basic")
 		s.rewardState()
@@ -1081,9 +1087,9 @@ func (s *rwHist) opAuthzGrant(granter, grantee, kind int, limit oInt, exp int64)
 		s.out.Count("op.AG.ok")
 		s.grantKeys[[3]int{granter, grantee, kind}] = true
 	} else if p {
-		s.out.Impl("r err panic")
+		s.out.Impl("r err")
 	} else {
-		s.out.Impl("r err %s", tag)
+		s.out.Impl("r err")
 		if tag == "codec" {
 			s.out.Count("diag.authz-grant-undecodable.kind" + strconv.Itoa(kind))
 		}
@@ -1108,7 +1114,7 @@ func (s *rwHist) opAuthzRevoke(granter, grantee, kind int) {
 	if err == nil {
 		s.out.Impl("r ok")
 	} else {
-		s.out.Impl("r err notfound")
+		s.out.Impl("r err")
 	}
 	s.out.Count("op.AR")
 	s.rewardState()
@@ -1141,7 +1147,7 @@ func (s *rwHist) opCreateSub(owner int) {
 	if err == nil {
 		s.out.Impl("r ok")
 	} else {
-		s.out.Impl("r err exists")
+		s.out.Impl("r err")
 	}
 	s.out.Count("op.SUBC")
 	s.rewardState()
@@ -1167,10 +1173,10 @@ func (s *rwHist) opSend(from, to int, amt int64) {
 		return err
 	})
 	if basic {
-		s.out.Impl("r err basic")
+		s.out.Impl("r err")
 		s.rewardState()
 	} else if to == rwPool && err != nil && !p {
-		s.out.Impl("r err blocked")
+		s.out.Impl("r err")
 		s.rewardState()
 		if !strings.Contains(err.Error(), "not allowed to receive") {
 			s.out.Impl("unexpected %s", err)
